@@ -10,3 +10,4 @@ import Amqp.Gen.FrameKernels
 import Amqp.Frame
 import Amqp.Gen.Codes
 import Amqp.Codec
+import Amqp.Reasm
